@@ -499,7 +499,31 @@ pub fn id_oracle(c: &IdCase) -> Verdict {
                 if *t == o || t.cmp(&o) == std::cmp::Ordering::Equal {
                     vfail!("different-identifiers-equal", "{} and {} compare equal", c.id.render(), other.render());
                 }
+                // the zero-copy representation recognises identifiers by the same fields
+                let (bt, bo) = (BorrowedTerm::from(t), BorrowedTerm::from(&o));
+                if bt == bo || bt.cmp(&bo) == std::cmp::Ordering::Equal || bo.cmp(&bt) == std::cmp::Ordering::Equal {
+                    vfail!("different-identifiers-equal", "zero-copy form: {} and {} compare equal", c.id.render(), other.render());
+                }
             }
+        }
+        // both as keys of one map, in the plain form either decoder takes: two entries, through either decoder
+        let (ka, kb) = (refenc_canonical(&c.id), refenc_canonical(&other));
+        let mut m = vec![131u8, 116, 0, 0, 0, 2];
+        m.extend_from_slice(&ka[1..]);
+        m.extend_from_slice(&[97, 1]);
+        m.extend_from_slice(&kb[1..]);
+        m.extend_from_slice(&[97, 2]);
+        let entries = |t: &OwnedTerm| match t {
+            OwnedTerm::Map(m) => m.len(),
+            _ => 0,
+        };
+        match erltf::decode(&m) {
+            Ok(t) if entries(&t) == 2 => {}
+            r => vfail!("different-identifiers-collapse-as-map-keys", "owned decoder: {} and {} as keys of one map gave {:?}", c.id.render(), other.render(), r),
+        }
+        match erltf::decode_borrowed(&m).map(|t| t.to_owned()) {
+            Ok(t) if entries(&t) == 2 => {}
+            r => vfail!("different-identifiers-collapse-as-map-keys", "zero-copy decoder: {} and {} as keys of one map gave {:?}", c.id.render(), other.render(), r),
         }
     }
     Verdict::Pass(CaseInfo::nt(fp(&(format!("{:?}", c.id), c.hash1, c.hash2))).class("id-eq-hash-ord"))
